@@ -6,6 +6,7 @@ GInit == Init /\ hist = <<>>
 GNext ==
   \/ Reply /\ H([a |-> "Reply"])
   \/ Refuse /\ H([a |-> "Refuse"])
+  \/ Lose /\ H([a |-> "Lose"])
   \/ \E s \in Svcs, d \in Dirs : Upload(s, d) /\ H([a |-> "Upload", s |-> s, d |-> d])
   \/ \E s \in Svcs, d \in Dirs : Uploaded(s, d) /\ H([a |-> "Uploaded", s |-> s, d |-> d])
   \/ \E s \in Svcs, d \in Dirs : Failed(s, d) /\ H([a |-> "Failed", s |-> s, d |-> d])
